@@ -10,7 +10,7 @@ from ..ref import Graph
 
 LEVEL = "exploration"
 TECHNIQUE = 'runtime monitoring: statistical monitor (pooled Pearson chi-square against the enumerated spanning trees at a 1e-9 tail; per-edge inclusion frequencies against effective resistances on larger grids) plus an online trace checker replaying every random decision of gen_wilson in a loop-erased-random-walk reference model'
-RULE = ("statistical layer: N = 1000*k (quick) / 4000*k (thorough) draws of gen_wilson on grids whose k spanning trees are enumerated "
+RULE = ("statistical layer: N = 1000*k (quick) / 4000*k (thorough; 2x2: 10^6 draws, 2x3 and 3x2: 6*10^5) draws of gen_wilson on grids whose k spanning trees are enumerated "
         "by the harness (2x2:4, 2x3/3x2:15, 2x4/4x2:56, 3x3:192; thorough also 3x4:2415, cross-checked with Kirchhoff's "
         "determinant), numpy's global RNG seeded per block from VERIF_SEED and every 4th block entered with an already-consumed "
         "stream; pooled over all shards: every output must be one of the k trees, every tree must appear, and Pearson's chi-square "
@@ -32,7 +32,7 @@ GRIDS_M = [((4, 4), 40000, 200000), ((5, 5), 40000, 200000), ((3, 6), 30000, 120
 Z_MAX = 7.0
 THRESHOLDS = {"quick": {"c19:draws": 300000, "c19:marginal-draws": 150000, "c19:trace:draws": 500,
                         "c19:consumed-stream-blocks": 10}}
-THRESHOLDS["thorough"] = {**THRESHOLDS["quick"], "c19:draws": 1000000}
+THRESHOLDS["thorough"] = {**THRESHOLDS["quick"], "c19:draws": 3000000}
 ANCHORS = ["maze_dataset.generation.generators:LatticeMazeGenerators.gen_wilson",
            "maze_dataset.generation.generators:get_neighbors_in_bounds"]
 AMBIENT = dict(generators=False, solver=False, solved=False)
@@ -44,6 +44,10 @@ TAIL = 1e-9
 def n_draws(tier, k, shape):
     if tier == "quick":
         return 1000 * k
+    if shape == (2, 2):
+        return 250000 * k   # 10^6 draws: biases of about one percent per tree
+    if shape in ((2, 3), (3, 2)):
+        return 40000 * k
     return 200 * k if shape == (3, 4) else 4000 * k
 
 
@@ -255,6 +259,17 @@ def _replay(ctx, ev, cl, R, C, case):
             path = [cur]
             while cur not in visited:
                 en = take()
+                if en is not None and en[0] == "choice":
+                    # no neighbour query for the walk's current cell although the walk has not reached the tree yet.  If what follows
+                    # is a neighbour query for *another* cell, the walk was abandoned and a new one begun - Wilson's walks run until
+                    # they hit the tree, whatever rule picks their starting cells; anything else is merely another use of the hooks
+                    k = pos[0]
+                    while k < len(ev) and ev[k][0] == "choice":
+                        k += 1
+                    nxt = ev[k] if k < len(ev) else None
+                    if nxt is not None and nxt[0] == "neigh" and nxt[1] != cur:
+                        raise _Div(f"the walk at {cur} (path {path}) was abandoned before reaching the tree; the implementation goes on from {nxt[1]}")
+                    raise _Unobserved(f"expected a neighbour query, got {en}")
                 if en is None or en[0] != "neigh":
                     raise _Unobserved(f"expected a neighbour query, got {en}")
                 if en[1] != cur:
